@@ -31,7 +31,7 @@ fn main() {
     let tsan = std::env::var("C08_TSAN").is_ok();
     let reduced = tsan && !thorough;
     let thorough = thorough && !tsan;
-    let ns: Vec<usize> = if reduced { vec![1, 2, 3, 7, 32] } else if thorough { (1..=33).chain([64, 300]).collect() } else { vec![1, 2, 3, 4, 5, 7, 8, 13, 16, 24, 31, 32, 33, 64] };
+    let ns: Vec<usize> = if reduced { vec![1, 2, 3, 7, 32] } else if thorough { (1..=33).chain([64, 300]).collect() } else { vec![1, 2, 3, 4, 7, 16, 32, 33, 64] };
     let repeats = if reduced { 1 } else if thorough { 4 } else { 2 };
     let mut shapes: Vec<(u32, u32)> = vec![];
     let hs: Vec<u32> = if reduced { vec![33, 64, 100] } else if thorough { vec![1, 2, 31, 32, 33, 40, 47, 64, 65, 100, 128, 255, 256, 257] } else { vec![1, 32, 33, 47, 64, 100, 257] };
